@@ -75,6 +75,18 @@ pub fn c04(tier: &str, seed: u64) -> Vec<Case> {
     let mut v = vec![];
     let mut all = packets(tier, seed ^ 0x44, false);
     all.truncate(if thorough { 6000 } else { 700 });
+    // extended response codes set without EDNS data: a legal state of the public API (the upper bits
+    // have nowhere to go); the message must still be framed, with nothing written that is not counted
+    {
+        let mut g = crate::gen::Gen::new(seed ^ 0xE0);
+        for i in 0..(if thorough { 400 } else { 40 }) {
+            let mut p = g.packet(3);
+            *p.opt_mut() = None;
+            p.additional_records.retain(|r| !matches!(r.rdata, rdata::RData::OPT(_)));
+            *p.rcode_mut() = if i % 2 == 0 { RCODE::BADVERS } else { RCODE::Reserved };
+            all.push((p, "ext-rcode-no-opt".to_string()));
+        }
+    }
     for (i, (p, tag)) in all.into_iter().enumerate() {
         let plain = match p.build_bytes_vec() { Ok(b) => b, Err(_) => { v.push(Case::oracle_only().fail("build-failed", "plain".into())); continue; } };
         let comp = match p.build_bytes_vec_compressed() { Ok(b) => b, Err(_) => { v.push(Case::oracle_only().fail("build-failed", "compressed".into())); continue; } };
